@@ -1,5 +1,9 @@
 package verifh
 
+import (
+	"github.com/creachadair/jrpc2"
+)
+
 func init() { scenarios["C10"] = scenarioC10 }
 
 // C10: channel discipline. Mixed workloads on a server-side or a client-side
@@ -27,6 +31,58 @@ func scenarioC10(r *Run) {
 		return
 	}
 	checkDiscipline(r, w.sEnd, w.out, w.status != nil)
+	if r.Failed() || w.status == nil || !r.Gen.Chance("secondlife", 0.4) {
+		return
+	}
+	// "per Start": the same server runs a second life on a fresh channel; its
+	// channel is closed exactly once too, and the first one is not touched again.
+	sEnd2, pEnd2 := NewPipe(r, "srv2", "peer2")
+	var out2 []*outRec
+	sEnd2.OnSend = func(e *End, rec []byte) {
+		o := &outRec{Seq: len(r.Sim.Events), Raw: string(rec)}
+		parseOut(o)
+		out2 = append(out2, o)
+	}
+	sEnd2.CloseUnblocks = w.sEnd.CloseUnblocks
+	n1 := w.sEnd.NClose
+	endKind := r.Gen.Int("secondend", 3)
+	var st2 *jrpc2.ServerStatus
+	nrep := 0
+	r.Sim.Spawn("s2-start", func() {
+		w.srv.Start(sEnd2)
+		s := w.srv.WaitStatus()
+		st2 = &s
+	})
+	r.Sim.Spawn("s2-peer", func() {
+		pEnd2.Send([]byte(`[{"jsonrpc":"2.0","id":7001,"method":"h","params":{"t":"second"}},{"jsonrpc":"2.0","method":"h","params":{"t":"secondnote"}}]`))
+		if _, err := pEnd2.Recv(); err == nil {
+			nrep++
+		}
+		switch endKind {
+		case 1:
+			w.srv.Stop()
+		case 2:
+			sEnd2.Kick()
+		}
+		pEnd2.Close()
+		for {
+			if _, err := pEnd2.Recv(); err != nil {
+				return
+			}
+			nrep++
+		}
+	})
+	if !r.RunQ() {
+		return
+	}
+	if st2 == nil {
+		r.Inconclusive("second-life-did-not-end") // judged by C08
+		return
+	}
+	checkDiscipline(r, sEnd2, out2, true)
+	if !r.Failed() && w.sEnd.NClose != n1 {
+		r.Fail("close-count", "channel %s of the first Start was closed again during the second life (%d closes in all)", w.sEnd.Name, w.sEnd.NClose)
+	}
 }
 
 var cliScenarioC10 func(r *Run)
